@@ -312,6 +312,8 @@ def run(ctx):
     rng = ctx.sub_rng("c10")
     cases, per_class = modelgen.build_cases(rng, ctx.tier)
     models = modelgen.discover_models()
+    from vf import spec_examples
+    cases = cases + spec_examples.cases()
     mine = [c for c in cases if ctx.mine()]
     ctx.extra["model_classes_discovered"] = len(per_class)
     try:
@@ -328,7 +330,14 @@ def run(ctx):
             case = dict(c, backend=backend)
             if not r.get("ok"):
                 ctx.count("rejected_by_" + backend)
+                if c.get("kind") == "spec_example":
+                    ctx.count("spec_examples_validated")
+                    ctx.violation(f"spec_example_rejected:{cls.__name__}@{c['cls'].split(':')[0].split('.')[-2]}:{c['tag']}",
+                                  f"{c['cls']} ({backend}): example #{c['example']} from the 2025-06-18 specification "
+                                  f"{str(c['wire'])[:160]} does not validate: {str(r.get('err'))[:200]}", case)
                 continue
+            if c.get("kind") == "spec_example":
+                ctx.count("spec_examples_validated")
             ctx.count("round_trips")
             if "dump_full" not in r:
                 shadow = sorted(set(c["wire"]) & modelgen.API_NAMES)
